@@ -186,6 +186,28 @@ def run_case(case):
                 bad("%s raises %s on a permuted batch" % (mm, type(ex).__name__), "permutation", "%s %s" % (str(ex)[:200], desc0))
                 continue
             compare(mm, idx, got, "permutation")
+    # another object of the same configuration constructed and fitted on other data in between: the first model's outputs stay
+    # bitwise the same (default estimators, module-level caches and class attributes are not part of "the model")
+    try:
+        other = e["variants"][case["variant"]]()
+        numpy.random.seed(1)
+        K.fit(other, kind, K.data(kind, (case["data"] + 1) % 5))
+        try:
+            K.observe(other, kind, K.data(kind, (case["data"] + 1) % 5))
+        except Exception:
+            pass
+    except Exception:
+        other = None
+    if other is not None:
+        for mm in methods:
+            cnt += 1
+            try:
+                again = _call(est, mm, P, kind, yP)
+            except Exception as ex:
+                bad("%s raises %s after another instance was fitted" % (mm, type(ex).__name__), "another instance fitted in between", "%s %s" % (str(ex)[:200], desc0))
+                continue
+            if not _eq_exact(again, full[mm]):
+                bad("%s: repeated calls disagree" % mm, "another instance fitted in between", desc0)
     # the caller's batch buffer refilled in place between calls (same array object, other rows), every method first on the one
     # content, then on the other: the output follows the rows that are in the buffer at the time of the call
     if kind in ("reg", "clf", "cluster", "poly", "nmf", "recip"):
